@@ -585,6 +585,7 @@ XTC_MAGIC = [0, 0, 0, 0, 0, 0, 0, 0, 0, 8, 10, 12, 16, 20, 25, 32, 40, 50, 64, 8
              13316085, 16777216]
 DILUTE_EXTS = [".xtc", ".trr", ".h5"]
 TEXT_EXTS = [".mdcrd", ".xyz", ".lammpstrj", ".gro", ".pdb", ".rst7"]
+CHAIN_EXTS = [".pdb", ".pdb.gz", ".h5", ".gro", ".xtc", ".dcd"]     # formats loaded with their own topology, and two loaded with top=
 REFUSAL_BOUNDS = [Fr(-999999, 10000), Fr(9999999, 10000),          # mdcrd %8.3f, _format_83 first branch (angstrom)
                   Fr(-9999999, 10), Fr(99999999, 10),               # _format_83 second branch / ValueError
                   Fr(-9999995, 10000), Fr(99999995, 10000),         # gro %8.3f (nm)
@@ -691,7 +692,8 @@ def gen_traj(rng, cls, n_atoms, n_frames, cell, times, slot=None):
 
 def saves_for(rng, tj, quick):
     sv = []
-    for ext in (DILUTE_EXTS if tj["cls"] == "dilute" else TEXT_EXTS if tj["cls"] in ("decade", "limit", "celldecade") else ALL_EXTS):
+    for ext in (DILUTE_EXTS if tj["cls"] == "dilute" else TEXT_EXTS if tj["cls"] in ("decade", "limit", "celldecade") else
+                CHAIN_EXTS if tj["cls"] == "chains" else ALL_EXTS):
         opts = {}
         if ext == ".gro":
             opts = {"precision": rng.choice([1, 2, 3, 3, 4, 5, 6])}
@@ -706,6 +708,9 @@ def saves_for(rng, tj, quick):
                     opts["bfactors"] = [f2b(round(rng.uniform(-9, 99), 2)) for _ in range(n * T)]
                     opts["bf_shape"] = [T, n]
         sv.append({"ext": ext, "opts": opts})
+        if ext in (".pdb", ".pdb.gz") and tj.get("chains"):
+            # chain boundaries in the file are TER records and chain-letter changes: both values of `ter`
+            sv.append({"ext": ext, "opts": dict(opts, ter=not opts["ter"])})
     return sv
 
 
@@ -745,6 +750,21 @@ def build_trajs(ctx):
             nf = max(nf, 3)
         times = "default" if rng.random() < 0.25 else "nonuniform"
         trajs.append(gen_traj(rng, cls, na, nf, cell, times))
+    # topology axis: several chains, with explicit ids that repeat for non-adjacent chains (A, B, A), adjacent chains with
+    # the same id, and more than 26 unlabelled chains (the PDB writer's letters wrap around); the comparison of
+    # load(save(t)) with t is per atom index, so a reader that regroups atoms by chain letter moves coordinates
+    chain_sets = [["A", "B", "A"], [None] * 28, ["X", "Y", "X", "Y"], [None] * 3, ["A", "A", "B"], [None] * 27 + ["A"]]
+    trajs.append({"n_atoms": 18, "xyz": [[one(0.05 * k - 0.3) for k in range(54)], [one(0.07 * k + 0.1) for k in range(54)]],
+                  "cls": "probe", "time": [one(0.0), one(1.0)], "cell": None, "chains": ["A", "B", "A"]})
+    trajs.append({"n_atoms": 30, "xyz": [[one(0.03 * k - 1.0) for k in range(90)]], "cls": "probe", "time": [one(0.0)],
+                  "cell": {"lengths": [[one(5.0)] * 3], "angles": [[one(90.0)] * 3], "kind": "ortho"}, "chains": [None] * 28})
+    for i in range(6 if quick else 36):
+        cs = chain_sets[(i + ctx.seed) % len(chain_sets)]
+        na = rng.choice([a for a in (12, 17, 23, 30, 40, 60) if a >= len(cs)])
+        tj = gen_traj(rng, "unit", na, rng.randint(1, 3), rng.choice(["none", "ortho", "tric"]), "nonuniform")
+        tj["cls"] = "chains"
+        tj["chains"] = list(cs)
+        trajs.append(tj)
     # dilute systems: the XTC small-size index starts at every slot of magicints[] (thorough: all of 9..64, quick: a
     # spread with stride 5 -- the index climbs up to 8 entries within a frame, so every entry is used in both tiers)
     slots = list(range(9, 65)) if not quick else [9 + (5 * k + ctx.seed) % 56 for k in range(12)]
@@ -1207,7 +1227,8 @@ def check_text(ctx, jobs, case, tj, sv, res, mem):
         hdr = opts.get("header", True)
         structure(len([l for l in lines if l.startswith("MODEL")]) == (T if hdr else 0) and
                   len([l for l in lines if l == "ENDMDL"]) == (T if hdr else 0), "MODEL/ENDMDL records")
-        structure(len([l for l in lines if l.startswith("TER")]) == (T if opts.get("ter", True) else 0), "TER records")
+        nch = len([c for c in range(len(tj.get("chains") or [None])) if any(a * len(tj.get("chains") or [None]) // n == c for a in range(n))])
+        structure(len([l for l in lines if l.startswith("TER")]) == (T * nch if opts.get("ter", True) else 0), "TER records")
         cr = [l for l in lines if l.startswith("CRYST1")]
         if tj["cell"]:
             if structure(len(cr) == 1, "one CRYST1 record"):
